@@ -228,8 +228,8 @@ Section Model.
             guard (v =? n) (Some (set_rz s (RActive who dt n PhStarted)))
         | PhStarted, ECentralDone site =>
             guard ((n =? 0) && (site =? 1) && nilb (central s)) (Some (set_rz s (RActive who dt n PhFinalDrained)))
-        | PhStarted, EResizeEnd => guard (0 <? n) (Some (set_rz s RIdle))
-        | PhFinalDrained, EResizeEnd => Some (set_rz s RIdle)
+        | PhStarted, EResizeEnd => guard (negb dt && (0 <? n)) (Some (set_rz s RIdle))
+        | PhFinalDrained, EResizeEnd => guard (negb dt) (Some (set_rz s RIdle))
         | PhDrained, EDtorEnd =>
             guard (dt && nilb (pend th) && is_none (held th) && nilb (exec th)) (Some (set_rz s RDead))
         | _, _ => None
@@ -253,11 +253,24 @@ Section Model.
 
   Definition kind_of_pop (site : Z) (execSite : Z) : hkind := if site =? execSite then KExec else KLocal.
 
+  (* a frame with a pending obligation can only perform the obligated event *)
+  Definition pc_allows (p : pc) (e : event) : bool :=
+    match p, e with
+    | PMustCentral, EEnqCentral _ _ => true
+    | PMustCentral, _ => false
+    | PMustInline, EInline _ => true
+    | PMustInline, _ => false
+    | PForceAdd, EAdd _ _ => true
+    | PForceAdd, _ => false
+    | _, _ => true
+    end.
+
   Definition accept (s : state) (tid : nat) (e : event) : option state :=
     let th := getT s tid in
     match trole th with
     | REnded => None
     | _ =>
+    if negb (pc_allows (tpc th) e) then None else
     if is_rz_event e then accept_rz s tid e else
     match e with
     | EGen t =>
